@@ -55,6 +55,14 @@ class Truthy:
 
 
 @dataclass(frozen=True)
+class InstVal:
+    """An instance of a repository class built from constants at module level (e.g. a callable object used as a function)."""
+
+    cls: ClassInfo
+    obj: "ObjVal | None" = None
+
+
+@dataclass(frozen=True)
 class ClassVal:
     cls: ClassInfo
 
@@ -87,7 +95,7 @@ class ObjVal:
         return ObjVal(tuple(sorted([(k, v) for k, v in self.fields if k != name] + [(name, vals)], key=lambda kv: kv[0])))
 
     def __repr__(self) -> str:
-        return "Obj(" + ",".join(f"{k}={sorted(c.value for c in v)}" for k, v in self.fields) + ")"
+        return "Obj(" + ",".join(f"{k}={sorted(repr(getattr(c, 'value', c)) for c in v)}" for k, v in self.fields) + ")"
 
 
 @dataclass(frozen=True)
@@ -161,6 +169,10 @@ def cur_wrapped_param(c: Callee) -> str | None:
     """Name of the parameter of the enclosing decorator that holds the wrapped callable."""
     p = c.func.parent
     if p is None:
+        # partial(wrapper, func): a module-level wrapper whose own first parameter holds the wrapped callable
+        pp = c.func.positional_params
+        if pp and any(k == pp[0] and any(isinstance(x, Callee) for x in v) for k, v in c.env):
+            return pp[0]
         return None
     params = p.positional_params
     return params[0] if params else None
@@ -303,6 +315,12 @@ class Interp:
     def wrapper_of(self, deco: FuncInfo) -> FuncInfo:
         """A repo decorator must be `def deco(func): async def wrapper(...): ...; return wrapper`."""
         rets = [n for n in ast.walk(deco.node) if isinstance(n, ast.Return) and self.prog.func_of_node.get(n) is deco]
+        if len(rets) == 1 and isinstance(rets[0].value, ast.Call) and norm(rets[0].value.func).rsplit(".", 1)[-1] == "partial" and len(rets[0].value.args) == 2 and not rets[0].value.keywords and len(deco.positional_params) == 1 and isinstance(rets[0].value.args[1], ast.Name) and rets[0].value.args[1].id == deco.positional_params[0] and isinstance(rets[0].value.args[0], ast.Name):
+            # `return partial(_wrapper, func)`: the wrapper is a module-level function whose first parameter is the wrapped one
+            d = self.prog.resolve_name(deco.module, rets[0].value.args[0].id)
+            if d is not None and d.kind == "func" and d.obj.cls is None and d.obj.parent is None and d.obj.positional_params:
+                self.__dict__.setdefault("_partial_wrappers", set()).add(d.obj)
+                return d.obj
         if len(rets) != 1 or not isinstance(rets[0].value, ast.Name) or rets[0].value.id not in deco.nested:
             raise AnalysisError(f"decorator {deco.fq} is not of the recognised wrapper shape")
         if len(deco.positional_params) != 1:
@@ -315,10 +333,15 @@ class Interp:
             d = self.decorator_def(func, dec)
             if isinstance(d, FuncInfo):
                 w = self.wrapper_of(d)
-                env = [(d.positional_params[0], frozenset([cur]))]
                 wp = w.positional_params
-                if wp and cls is not None:
-                    env.append((wp[0], frozenset([ClassVal(cls)])))
+                if w in self.__dict__.get("_partial_wrappers", ()):
+                    env = [(wp[0], frozenset([cur]))]
+                    if len(wp) > 1 and cls is not None:
+                        env.append((wp[1], frozenset([ClassVal(cls)])))
+                else:
+                    env = [(d.positional_params[0], frozenset([cur]))]
+                    if wp and cls is not None:
+                        env.append((wp[0], frozenset([ClassVal(cls)])))
                 cur = Callee(w, cls, tuple(env))
             else:
                 nm = d.split(".")[-1] if "." in d else d
@@ -625,6 +648,29 @@ class Interp:
         if d.kind == "module":
             return frozenset([ModVal(d.obj)])
         if d.kind == "const":
+            if isinstance(d.obj, ast.Call) and isinstance(d.obj.func, (ast.Name, ast.Attribute)):
+                dc = self.prog.resolve_expr(d.module, d.obj.func)
+                if dc is not None and dc.kind == "class" and dc.obj.find_method("__init__") is not None and not self.folder.is_enum(dc.obj):
+                    # NAME = Cls(<constants>): an instance whose stored constructor arguments are known
+                    c = dc.obj
+                    init = c.find_method("__init__")
+                    pos = init.positional_params[1:]
+                    given = dict(zip(pos, d.obj.args))
+                    for k in d.obj.keywords:
+                        if k.arg:
+                            given[k.arg] = k.value
+                    flds = []
+                    for prm, attr in self.stored_params(c).items():
+                        e = given.get(prm, init.param_default(prm))
+                        if e is None:
+                            continue
+                        try:
+                            cv = self.folder.plain(self.folder.fold(d.module, e))
+                        except Unfoldable:
+                            continue
+                        if isinstance(cv, (int, str, bool)) or cv is None:
+                            flds.append((attr, frozenset([Const(cv)])))
+                    return frozenset([InstVal(c, ObjVal(tuple(sorted(flds))) if flds else None)])
             try:
                 v = self.folder.fold(d.module, d.obj)
             except Unfoldable:
@@ -675,7 +721,20 @@ class Interp:
     def ctor_objval(self, c: ClassInfo, call: ast.Call, fr: Frame):
         init = c.find_method("__init__")
         if init is None:
-            return None
+            # NamedTuple / dataclass: the fields are the constructor arguments
+            flds = self.record_fields(c)
+            if flds is None or any(isinstance(a, ast.Starred) for a in call.args) or any(k.arg is None for k in call.keywords):
+                return None
+            given = dict(zip(flds, call.args))
+            for k in call.keywords:
+                given[k.arg] = k.value
+            out = []
+            for n in flds:
+                if n in given:
+                    vals = self.eval(given[n], fr)
+                    if vals and UNKNOWN not in vals:
+                        out.append((n, vals))
+            return ObjVal(tuple(out)) if out else None
         stored = self.stored_params(c)
         if not stored:
             return None
@@ -1117,6 +1176,9 @@ class Interp:
             # wrapper functions receive cls explicitly as first arg when invoked via classmethod
             if f.parent is not None and callee.cls is not None and pos and self._is_wrapper(f):
                 pos_eff = pos[1:]
+            if f in self.__dict__.get("_partial_wrappers", ()):
+                # partial(wrapper, func): func is bound already; the class comes next when called through a classmethod
+                pos_eff = pos[2:] if callee.cls is not None else pos[1:]
             pairs: list[tuple[str, ast.expr]] = []
             args = list(call.args)
             # explicit self/cls passed positionally (func(self, gateway, ...))
@@ -1211,6 +1273,12 @@ class Interp:
             return self.passthrough_arg(amap[prm], fr, depth + 1)
         return a
 
+    def wrapped_param_names(self, f: FuncInfo) -> set:
+        """Names under which a decorator's wrapper function refers to the function it wraps."""
+        if f in self.__dict__.get("_partial_wrappers", ()):
+            return {f.positional_params[0]}
+        return set(f.parent.params) if f.parent is not None else set()
+
     def _is_wrapper(self, f: FuncInfo) -> bool:
         return f.parent is not None and f.parent.cls is None and f.name in f.parent.nested
 
@@ -1289,6 +1357,12 @@ class Interp:
                         out.append(Target("repo", frame=self.bind_call(v, call, fr, fr.V, facts=self._facts_ctx)))
                     elif isinstance(v, ClassVal):
                         out.append(self._ctor_target(v.cls, call, fr, argtypes))
+                    elif isinstance(v, InstVal) and v.cls.find_method("__call__") is not None:
+                        cm = v.cls.find_method("__call__")
+                        cfr = self.bind_call(self.make_callee(cm, v.cls), call, fr, fr.V, skip_first=True, facts=self._facts_ctx)
+                        if v.obj is not None:
+                            cfr = cfr.bind(cm.positional_params[0], frozenset([v.obj]))
+                        out.append(Target("repo", frame=cfr))
                     elif isinstance(v, Absent):
                         out.append(Target("absent", fullname=f"{v.owner}.{v.name}"))
                     elif isinstance(v, Const) and v.value is None:
@@ -1324,6 +1398,12 @@ class Interp:
                         meth = d.obj.find_method(la[0].attr)
                         if meth is not None and meth.cls is not None:
                             outs = self._target_for_fullname(f"{meth.cls.fq}.{la[0].attr}", "method", call, fr, argtypes)
+                            if outs:
+                                return outs
+                        if meth is None and d.obj.find_attr(la[0].attr) is not None:
+                            # a field holding a callable (`cancel = self._cancel_save` ... `await cancel()`)
+                            owner = d.obj.find_attr(la[0].attr)[0]
+                            outs = self._target_for_fullname(f"{owner.fq}.{la[0].attr}", "method", call, fr, argtypes)
                             if outs:
                                 return outs
                         exts = [b for b in (p.facts.get("mro", {}).get(bt) or []) if not b.startswith(PKG + ".")]
